@@ -131,6 +131,8 @@ type Result struct {
 	Rounds []*Round `json:"rounds"`
 	Panic  string   `json:"panic"`
 	Hang   bool     `json:"hang"`
+	// a block of the trunk (valid by construction) was refused: the rounds cannot run
+	TrunkFail string `json:"trunkfail"`
 }
 
 // ---------------------------------------------------------------- child: one case
@@ -260,9 +262,9 @@ func burner(n int) []byte {
 func (x *runner) genPool(kind string, round int, best uint64) []pending {
 	h := best + 1
 	var subs []pending
-	used := map[bc.Hash]bool{}   // outputs spent by a planned transaction
-	var usedList []cl.Out        // the same, for picking a conflict
-	var fresh []cl.Out           // outputs of planned (unconfirmed) transactions
+	used := map[bc.Hash]bool{} // outputs spent by a planned transaction
+	var usedList []cl.Out      // the same, for picking a conflict
+	var fresh []cl.Out         // outputs of planned (unconfirmed) transactions
 	pick := func(pred func(o outRef) bool) (outRef, bool) {
 		var cand []outRef
 		for _, o := range x.avail {
@@ -733,7 +735,10 @@ func runCase(w *cl.World, c *Case, base string, local int) (*Result, error) {
 		tip = w.NewBlock(tip, nil, cl.BlockOpt{RewardProgram: prog, Skip: r.Intn(2) * r.Intn(2)})
 		orphan, err := n.Process(tip.Block)
 		if err != nil || orphan {
-			return nil, fmt.Errorf("trunk block %d: orphan=%v err=%v", tip.Block.Height, orphan, err)
+			// an offline-built valid block (its own slot, timestamp parent + k*interval) refused by the node
+			res.TrunkFail = fmt.Sprintf("class=valid-block-rejected: block %d of the offline-built trunk (empty, signed for its slot, timestamp %d, parent timestamp %d) was refused: orphan=%v err=%v",
+				tip.Block.Height, tip.Block.Timestamp, tip.Parent.Block.Timestamp, orphan, err)
+			return res, nil
 		}
 		x.stored = append(x.stored, x.blocks.get(tip.Hash.String()))
 		x.confirm(tip.Block.Transactions[0], tip.Block.Height, true)
@@ -1082,6 +1087,11 @@ func runC38(c *Ctx) error {
 			c.Stats.Case(fmt.Sprint(cs.Seed, cs.Kind), true)
 			continue
 		}
+		if r.TrunkFail != "" {
+			fail(r.TrunkFail, map[string]interface{}{"seed": cs.Seed, "kind": cs.Kind, "trunk": r.Trunk})
+			c.Stats.Case(fmt.Sprint(cs.Seed, cs.Kind), true)
+			continue
+		}
 		for ri, rd := range r.Rounds {
 			desc := map[string]interface{}{"seed": cs.Seed, "kind": cs.Kind, "local_key": r.Local, "trunk": r.Trunk, "round": ri,
 				"height": rd.Height + 1, "ts": rd.Ts, "stop_first": rd.StopFirst, "in_slot": rd.InSlot, "pool": len(rd.Pool),
@@ -1101,6 +1111,7 @@ func runC38(c *Ctx) error {
 			nontrivial := rd.InSlot && len(rd.BlockTxs) > 1
 			c.Stats.Case(fmt.Sprint(cs.Seed, cs.Kind, ri), nontrivial)
 			c.Stats.Count("rounds")
+			c.Stats.Count("model_evaluated")
 			c.Stats.Count("pool_size_" + bucket(len(rd.Pool)))
 			if rd.ProposeErr != "" {
 				c.Stats.Count("propose_error")
